@@ -291,7 +291,9 @@ PREDS = {
 
 def to_input(o):
     """the input that reproduces an observation (resolved sizes and margins become literals)"""
-    return dict(op="enc", wr=o["wr"], fmt=o["fmt"], cp=o["cp"], cn=o["cn"], wk=0, hk=0, w0=o["w"], h0=o["h"], hints=o["hints"], tag=o.get("tag", ""))
+    big = lambda k: o.get(k + "k") == 3          # sizes at the top of the int range stay symbolic (MaxInt64 - v)
+    return dict(op="enc", wr=o["wr"], fmt=o["fmt"], cp=o["cp"], cn=o["cn"], wk=3 if big("w") else 0, hk=3 if big("h") else 0,
+                w0=o["w0"] if big("w") else o["w"], h0=o["h0"] if big("h") else o["h"], hints=o["hints"], tag=o.get("tag", ""))
 
 
 def tlc_judge(ctx, obs):
